@@ -15,7 +15,7 @@ from simkit.common import V
 
 ID = "C12"
 LEVEL = "exploration"
-BUDGET = {"quick": (2500, 35), "thorough": (600_000, 540)}
+BUDGET = {"quick": (4000, 35), "thorough": (600_000, 540)}
 RULE = ("scripts of 2-10 operations (service publishes configuration i with a new hash; register / unregister in "
         "code; next poll answers with RPC error / 0.5-12 s delay / garbage bytes / a response with one "
         "uninterpretable tracepoint; sleeps of 0-25 s) x an application thread running through the probed lines meanwhile x worker stalls x seeded schedules with a pre-emption point at "
@@ -83,7 +83,7 @@ def generate(seed, tier):
                         "bad": False, "odd_metric": False})
         ops.append({"op": "register", "reg": 1, "at_poll": True})
     knobs = common.race_knobs(r, stall_p=r.choice((0.0, 0.0005, 0.003)), stall_ns=[10_000_000, 2_000_000_000])
-    return {"ops": ops, "line_level": short or r.random() < 0.7, "prober": r.random() < 0.5, "knobs": knobs,
+    return {"ops": ops, "line_level": short or r.random() < 0.7, "prober": r.random() < (0.75 if short else 0.5), "knobs": knobs,
             "tmode": r.randrange(4),
             "svc_clock": r.choice(("steady", "steady", "steady", "zero", "backwards", "jumpy"))}
 
@@ -172,6 +172,7 @@ def execute(s, ch):
             return data
         svc._poll_reply = poll_reply
         tracer = None
+        in_update = {"n": 0}
         if s["line_level"]:
             src = seams.SRC
             tracer = linetrace.LineTracer(k, (os.path.join(src, "deep/config"), os.path.join(src, "deep/task"),
@@ -184,11 +185,15 @@ def execute(s, ch):
                                           # event, or one worker is applying an update, hand over to (another) worker
                                           # (one direction per run: the two would hand the baton straight back)
                                           targets=[{"new_config": ("prober", 0.5)} if s.get("prober") else {},
-                                                   {"__actions_for_location": ("pool-*", 0.3)} if s.get("prober") else {},
+                                                   # the application thread dawdles in the middle of matching an event
+                                                   # while an update is being applied
+                                                   {"__actions_for_location": ("@stall", 0.2, (20_000_000, 500_000_000), "any",
+                                                                               lambda: in_update["n"] > 0)}
+                                                   if s.get("prober") else {},
                                                    # a worker that has just taken an update stands still for 0.05-3 s
                                                    # (at its first line, or at a line drawn as it goes)
                                                    {"update_listeners": ("@stall", 0.35, (50_000_000, 3_000_000_000))},
-                                                   {"update_listeners": ("@stall", 0.12, (50_000_000, 3_000_000_000), "any")}][s.get("tmode", 0)])
+                                                   {"update_listeners": ("@stall", 0.25, (50_000_000, 3_000_000_000), "any")}][s.get("tmode", 0)])
             tracer.install()
         w.start()
         handles = {}
@@ -204,7 +209,6 @@ def execute(s, ch):
                 handler0.trace_call(sys._getframe(1), "line", None)
             gb = p.load({"probe": bg_probe})
 
-            in_update = {"n": 0}
             tcs = w.config.tracepoints
             orig_ul = tcs.update_listeners
 
